@@ -1,0 +1,8 @@
+//go:build verif
+
+package dotgit
+
+import "github.com/go-git/go-git/v6/plumbing"
+
+// VerifValidReferenceName exposes validReferenceName to the verification harness.
+func VerifValidReferenceName(name plumbing.ReferenceName) error { return validReferenceName(name) }
